@@ -116,6 +116,7 @@ class C13Monitor:
         self.occ = []       # (kind, key, time, market|None, ctx)
         self.inv = collections.Counter()   # (id(event), kind, key) -> invocations
         self.keep = []
+        self.cancel_calls = {}
         self.sess_cfg = case["config"]["simulation"]["sessions"]
         self.pending_alter = {}
         self.seq_of = {}
@@ -151,7 +152,9 @@ class C13Monitor:
         elif k == "altered":
             self.pending_alter[id(ev["order"])] = ev["new_price"]
         elif k == "cancel_call":
-            self.occ.append(("cancel_before", id(ev["cancel"]), ev["time"], ev["mkt"], None))
+            # the same Cancel object may be sent again later: an occurrence is (object, market time)
+            self.occ.append(("cancel_before", (id(ev["cancel"]), ev["time"]), ev["time"], ev["mkt"], None))
+            self.cancel_calls[id(ev["cancel"])] = self.cancel_calls.get(id(ev["cancel"]), 0) + 1
             self.keep.append(ev["cancel"])
         elif k == "cancel_ret":
             self.occ.append(("cancel_after", id(ev["log"]), ev["log"].cancel_time, ev["mkt"], None))
@@ -187,8 +190,9 @@ class C13Monitor:
                 if s["order_id"] is not None or s["placed_at"] is not None:
                     res.violation("before", "before-order-hook-saw-an-already-accepted-order", {"order": s})
             elif what == "cancel_before":
-                key = id(ev["cancel"])
-                if ev["cancel_placed_at"] is not None:
+                key = (id(ev["cancel"]), ev["mtime"])
+                # (the market call comes after this hook: a count of 0 means the object was never applied before)
+                if ev["cancel_placed_at"] is not None and self.cancel_calls.get(id(ev["cancel"]), 0) == 0:
                     res.violation("before", "before-cancel-hook-saw-an-already-applied-cancel", {"order": ev["snap"]})
             else:
                 key = id(ev["log"])
@@ -207,7 +211,12 @@ class C13Monitor:
                 hs = [h for h in hooks if (h.hook_type + ("_before" if h.is_before else "_after")) == kind]
                 if not hs:
                     continue
+                mult = collections.Counter(o[1] for o in occ_by_kind.get(kind, []))
+                done = set()
                 for (_, key, t, mkt, _) in occ_by_kind.get(kind, []):
+                    if key in done:
+                        continue   # one object used twice within one step (a Cancel sent again): counted together
+                    done.add(key)
                     exp = 0
                     for h in hs:
                         res.count("occurrence_hook_pairs")
@@ -233,6 +242,7 @@ class C13Monitor:
                             filtered_any = True
                     got = self.inv.get((id(event), kind, key), 0)
                     known.add((id(event), kind, key))
+                    exp *= mult[key]
                     if got != exp:
                         spec = [getattr(h, "spec", None) for h in hs]
                         res.violation(
